@@ -19,7 +19,11 @@ type Message struct {
 // ParseMessage parses one message from the front of buf. It returns (nil, 0, nil) when
 // buf does not yet hold a complete message, and an error when buf cannot be a prefix of a
 // well-formed message.
-func ParseMessage(buf []byte) (*Message, int, error) {
+func ParseMessage(buf []byte) (*Message, int, error) { return ParseMessageEOF(buf, false) }
+
+// ParseMessageEOF is ParseMessage that knows whether the peer has closed: a response with
+// "Connection: close" and no length is delimited by the end of the stream.
+func ParseMessageEOF(buf []byte, eof bool) (*Message, int, error) {
 	i := bytes.Index(buf, []byte("\r\n\r\n"))
 	if i < 0 {
 		if len(buf) > 0 {
@@ -102,6 +106,12 @@ func ParseMessage(buf []byte) (*Message, int, error) {
 		used += n
 	} else if m.Status == 204 || m.Status == 304 || (m.Status >= 100 && m.Status < 200) {
 		// no body
+	} else if strings.EqualFold(m.Headers["connection"], "close") {
+		if !eof {
+			return nil, 0, nil
+		}
+		m.Body = append([]byte(nil), rest...)
+		used += len(rest)
 	} else {
 		return nil, 0, errors.New("response without content-length or chunked encoding (status " + strconv.Itoa(m.Status) + ")")
 	}
